@@ -156,13 +156,42 @@ def gen_program(rng, seed):
 
 # ---------------------------------------------------------------------------------------------------------
 
+def source_map(text, settings, ncode):
+    """[(first pc, end pc, source line, operation name)] per instruction, from the text alone; None when it cannot be
+    built or does not cover the program (then the stamps are used as before)"""
+    import hera.parser as P
+    import hera.checker as C
+    with proto.Capture() as cap:
+        try:
+            ops, msgs = P.parse(text, settings=settings)
+        except BaseException:  # noqa
+            cap.take()
+            return None
+        cap.take()
+    out = []
+    for op in ops:
+        if op.name in ("LABEL", "DLABEL", "CONSTANT", "INTEGER", "DSKIP", "LP_STRING", "TIGER_STRING"):
+            continue
+        try:
+            n = int(C.operation_length(op))
+        except BaseException:  # noqa
+            return None
+        start = len(out)
+        out += [(start, start + n, op.loc.line, op.name)] * n
+    return out if len(out) == ncode else None
+
+
 class Ref:
     """Reference stepper: the interpreter's single step (real op.execute following pc) + the source map."""
 
-    def __init__(self, prog, settings):
+    def __init__(self, prog, settings, text=None):
         import hera.vm as V
         self.prog = prog
         self.code = prog.code
+        # the source map (which instructions belong to which source operation, and its line) is computed from the text
+        # by parsing it again and adding up operation lengths - not read off the `original` / `loc` stamps that
+        # convert_ops puts on the real operations, which are part of what is being checked
+        self.map = source_map(text, settings, len(prog.code)) if text is not None else None
         self.vm = V.VirtualMachine(settings)
         for d in prog.data:
             d.execute(self.vm)
@@ -173,6 +202,8 @@ class Ref:
         return self.vm.halted or not (0 <= self.vm.pc < len(self.code))
 
     def group_end(self, pc):
+        if self.map is not None:
+            return self.map[pc][1]
         e = pc
         while e < len(self.code) and self.code[e].original is self.code[pc].original:
             e += 1
@@ -196,10 +227,13 @@ class Ref:
     def at_break(self):
         return not self.finished() and self.vm.pc in self.breaks
 
+    def source_name(self, pc):
+        return self.map[pc][3] if self.map is not None else self.code[pc].original.name
+
     def next(self):
         if self.finished():
             return
-        if self.code[self.vm.pc].original.name == "CALL":
+        if self.source_name(self.vm.pc) == "CALL":
             c0 = self.calls
             self.source_op()
             while not self.finished() and not self.at_break() and self.calls > c0:
@@ -208,7 +242,7 @@ class Ref:
             self.source_op()
 
     def step(self):
-        if self.finished() or self.code[self.vm.pc].original.name != "CALL":
+        if self.finished() or self.source_name(self.vm.pc) != "CALL":
             return False
         self.source_op()
         return True
@@ -219,6 +253,11 @@ class Ref:
             self.source_op()
 
     def line_to_pc(self, line):
+        if self.map is not None:
+            for pc, m in enumerate(self.map):
+                if m[2] == line:
+                    return pc
+            return None
         for pc, op in enumerate(self.code):
             if op.loc.line == line:
                 return pc
@@ -228,6 +267,8 @@ class Ref:
         """what the debugger must show: the source line of the next instruction, or None when finished"""
         if self.finished():
             return None
+        if self.map is not None:
+            return self.map[self.vm.pc][2]
         return self.code[self.vm.pc].original.loc.line
 
 
@@ -485,7 +526,7 @@ def c12_case(text, opts, cmds):
     if prog0 is None:
         return "skip", 0
     shell, st, prog, out0, errs0 = debugger_session(text, opts)
-    ref = Ref(prog, make_settings("debug", opts))
+    ref = Ref(prog, make_settings("debug", opts), text)
     with proto.Capture() as cap:
         pass
     done = 0
@@ -550,7 +591,7 @@ def policy_case(text, j, brk):
     if prog0 is None:
         return "skip", 0, []
     shell, st, prog, out0, errs0 = debugger_session(text, {})
-    ref = Ref(prog, make_settings("debug", {}))
+    ref = Ref(prog, make_settings("debug", {}), text)
     cmds, done, stepped = [], 0, 0
     if brk:
         cmds.append("break " + brk)
